@@ -115,6 +115,8 @@ func (r *TaskRunner) Run(t *task.Task) error {
 	// a task can run more than once (several targets, stages sharing it, watchers):
 	// what it captures is the output of this run only
 	t.Log.Stdout, t.Log.Stderr = bytes.Buffer{}, bytes.Buffer{}
+	// and what it records is the result of this run, not of an earlier one
+	t.Errored, t.Error, t.Skipped, t.ExitCode = false, nil, false, -1
 
 	execContext, err := r.contextForTask(t)
 	if err != nil {
